@@ -847,7 +847,14 @@ class AgentDef(SimpleRepr):
     # for pickle support.
 
     def __getstate__(self):
-        return (self._name, self._hosting_costs, self.default_hosting_cost, self._attr)
+        return (
+            self._name,
+            self._hosting_costs,
+            self.default_hosting_cost,
+            self._attr,
+            self._routes,
+            self._default_route,
+        )
 
     def __setstate__(self, state):
         (
@@ -855,6 +862,8 @@ class AgentDef(SimpleRepr):
             self._hosting_costs,
             self._default_hosting_cost,
             self._attr,
+            self._routes,
+            self._default_route,
         ) = state
 
     def __str__(self):
